@@ -270,6 +270,22 @@ func c18Facts(e *env) (string, error) {
 		})
 		return nil
 	})
+	// --- peer.Send / peer.TrySend: the conditions under which they refuse before reaching the MConnection
+	for _, fn := range []string{"Send", "TrySend"} {
+		fd, err = e.funcDecl("libs/p2p/peer.go", "peer", fn)
+		if err != nil {
+			return "", err
+		}
+		var cs []string
+		ast.Inspect(fd.Body, func(n ast.Node) bool {
+			if is, ok := n.(*ast.IfStmt); ok {
+				cs = append(cs, c18Src(e, is.Cond))
+			}
+			return true
+		})
+		fmt.Fprintf(&sb, "/-- `if` conditions of `peer.%s`, in source order -/\ndef peer%sGuards : List String := %s\n\n", fn, fn, c18StrList(cs))
+	}
+
 	// --- Switch.addPeer: its top-level guards ("init; cond" of every top-level if), in source order
 	fd, err = e.funcDecl("libs/p2p/switch.go", "Switch", "addPeer")
 	if err != nil {
